@@ -290,13 +290,20 @@ def collectionNames : List Nat :=
 
 /-- constructors that skip the duplicate check must require owned inputs or be `unsafe` -/
 def c15_uncheckedConstructors : List (Nat × Nat) :=
-  inherentImpls.flatMap fun i =>
+  (inherentImpls.flatMap fun i =>
     if collectionNames.contains i.selfTy.head then
       (i.fns.filter fun f =>
         f.vis == 2 &&
         ((f.name == Sym.new || f.name == Sym.new_ref) && !((typeParams i).any fun p => i.hasBound p Sym.OwnedLockable) ||
          f.name == Sym.new_unchecked && !f.isUnsafe)).map fun f => (i.selfTy.head, f.name)
-    else []
+    else []) ++
+  -- the trait impls that build or grow a collection without a duplicate test
+  ((impls.filter fun i => collectionNames.contains i.selfTy.head && !i.selfTy.isRef &&
+      [Sym.Default, Sym.From, Sym.FromIterator, Sym.Extend].contains (traitName i) &&
+      !((typeParams i).any fun p => i.hasBound p Sym.OwnedLockable)).map fun i => (i.selfTy.head, traitName i)) ++
+  -- … and their derived forms (`#[derive(Default)]` only asks for `L: Default`)
+  ((structs.filter fun s => collectionNames.contains s.name).flatMap fun s =>
+    (s.derives.filter fun d => d == Sym.Default).map fun d => (s.name, d))
 
 /-- safe ways to get shared access into an owned collection -/
 def c15_ownedSharedAccess : List (Nat × Nat) :=
